@@ -13,7 +13,7 @@ func init() {
 		Title: "Filters run container, service, route in order, each once, per request",
 		Decided: "C06.a the routed chain's filter slice is a fresh slice filled, in this order, with the container's, the selected service's and the selected route's filters and nothing else, its target is the selected route's function, and the no-filter shortcut is taken only when all three lists are empty; error and plain-handler chains hold exactly the container filters around a target that runs no service or route code; " +
 			"C06.b the chain step performs exactly one dynamic call per invocation: the filter at the old index after advancing the index, or the target when the filters are exhausted, with the method's own arguments; C06.c every chain on the request path is a function-local object processed exactly once with the pair wrapped on that path; " +
-			"C06.d the http-middleware adapter rebinds request and response before it continues the chain, exactly once; C06.f every path of the routing-failure branch processes one chain; C06.e the request/response pair handed to the chain or the route function is the one pair built for this request.",
+			"C06.d the http-middleware adapter rebinds request and response before it continues the chain, exactly once; C06.f every path of the routing-failure branch processes one chain; C06.e the request/response pair handed to the chain or the route function is the one pair built for this request. C06.g no list field is assigned append(<list of another object>, ...), and a list taken over from another object is not grown in place (filters of routes built from one group or service do not share a backing array).",
 		NotDecided: "what user filters do with the chain pointer they receive (calling ProcessFilter twice re-enters later filters by design of the API).",
 		Rules: []Rule{
 			{ID: "C06.a", Template: "T-PROV", Required: true,
